@@ -262,7 +262,7 @@ def nontrivial(case: dict[str, Any]) -> bool:
 
 
 def shards(tier: str) -> list[dict[str, Any]]:
-    return [{"n": 45 if tier == "quick" else 900} for _ in range(16)]
+    return [{"n": 45 if tier == "quick" else 2200} for _ in range(16)]
 
 
 def run_shard(spec: dict[str, Any], seed: int) -> Collector:
